@@ -42,6 +42,7 @@ package migrator
 //@   min-sites 2
 //@   assert probe-reported-no-constraint: consMissing == 1 [C20]
 //@   assert same-constraint-as-probed: arg1 == consProbed [C20]
+//@   assert foreign-keys-wanted: !m.DB.Config.DisableForeignKeyConstraintWhenMigrating && !m.DB.Config.IgnoreRelationshipsWhenMigrating || defined(chk) [C20]
 //@ site create-index-only-if-missing
 //@   match invoke Migrator.CreateIndex
 //@   in migrator.(Migrator).AutoMigrate$1
